@@ -107,6 +107,16 @@ static Case decode(tape_t const& tape)
         int nt = 1 + static_cast<int>(t.below(3));
         for (int i = 0; i < nt; ++i) c.tail.push_back(t.pick({"--pika:threads=9", "tail", "--app=1", "-v", "--pika:bogus"}) + std::string(i ? std::to_string(i) : ""));
     }
+    // known finding F7 also shows when the second occurrence sits behind "--": PIKA_COMMANDLINE_OPTIONS=--pika:threads=a plus
+    // "-- --pika:threads=9" is re-parsed by the late command line handling ("cannot be specified more than once")
+    if (avoid_f7)
+    {
+        bool co_threads = false;
+        for (auto const& g : c.given) co_threads |= g.setting == S_THREADS && g.source == SRC_CMDOPTS;
+        if (co_threads)
+            for (auto& x : c.tail)
+                if (x.rfind("--pika:threads=9", 0) == 0) { x = "tail" + x.substr(16); ++c.avoided; }
+    }
     for (int i = 0; i < 24; ++i) c.order.push_back(t.raw());
     return c;
 }
@@ -133,6 +143,7 @@ static std::string value_text(Given const& g)
     }
 }
 
+static char const* garbage_stack(struct Case const& c);
 static std::string describe(tape_t const& tape)
 {
     Case c = decode(tape);
@@ -141,7 +152,7 @@ static std::string describe(tape_t const& tape)
     for (std::size_t i = 0; i < c.given.size(); ++i)
         os << (i ? ", " : "") << "\"" << setting_names[c.given[i].setting] << " via " << source_names[c.given[i].source] << " = " << value_text(c.given[i]) << "\"";
     static char const* const inv[] = {"-", "--pika:threads=abc", "--pika:threads=0", "--pika:foo=1 (unknown pika option)", "--pika:scheduler=bogus", "PIKA_THREADS=xyz", "pika.stacks.small_size=12junk"};
-    os << "], \"invalid\": \"" << inv[c.invalid] << "\", \"positional\": " << c.positional.size() << ", \"tail_after_dashdash\": " << c.tail.size() << "}";
+    os << "], \"invalid\": \"" << (c.invalid == 6 ? std::string("pika.stacks.small_size=") + garbage_stack(c) : std::string(inv[c.invalid])) << "\", \"positional\": " << c.positional.size() << ", \"tail_after_dashdash\": " << c.tail.size() << "}";
     return os.str();
 }
 
@@ -188,6 +199,14 @@ static int probe_main(int argc, char** argv)
     int r = pika::init(entry, argc, argv);
     proc::emit_probe("init_result", std::to_string(r));
     return r == 7 ? 0 : 3;
+}
+
+// garbage stack size: numeric prefix that would be a usable size + junk, tiny numeric prefix + junk, no number at all
+// (variant derived from an existing draw so that older replay tapes keep their meaning)
+static char const* garbage_stack(Case const& c)
+{
+    static char const* const g[] = {"12junk", "0x10000junk", "junk"};
+    return g[c.positional.size() % 3];
 }
 
 static Outcome run(tape_t const& tape)
@@ -239,7 +258,7 @@ static Outcome run(tape_t const& tape)
     case 3: pika_args.push_back("--pika:foo=1"); break;
     case 4: pika_args.push_back("--pika:scheduler=bogus"); break;
     case 5: env.push_back({"PIKA_THREADS", "xyz"}); break;
-    case 6: pika_args.push_back("--pika:ini=pika.stacks.small_size=12junk"); break;
+    case 6: pika_args.push_back(std::string("--pika:ini=pika.stacks.small_size=") + garbage_stack(c)); break;
     default: break;
     }
     // an invalid threads option next to a valid one would be a duplicate: drop the valid dedicated option then
